@@ -1,4 +1,16 @@
 import FFVerif.Props.C18
+import FFVerif.Pins.C07_body_get_control_matrix
+import FFVerif.Pins.C07_body_cache_control_matrix
+import FFVerif.Pins.C07_body_get_filter_function
+import FFVerif.Pins.C07_body_cache_filter_function
+import FFVerif.Pins.C07_body_get_pulse_correlation_filter_function
+import FFVerif.Pins.C07_body_get_filter_function_derivative
+import FFVerif.Pins.C07_body_get_total_phases
+import FFVerif.Pins.C07_body_cache_total_phases
+import FFVerif.Pins.C07_body_diagonalize
+import FFVerif.Pins.C07_body_copy
+import FFVerif.Pins.C07_body_deepcopy
+import FFVerif.Pins.C07_body_get_pulse_correlation_control_matrix
 #print axioms FFVerif.C18.trace_last
 #print axioms FFVerif.C18.trace_head
 #print axioms FFVerif.C18.trace_ne_nil
@@ -27,3 +39,15 @@ import FFVerif.Props.C18
 #print axioms FFVerif.C18.never_returned_or_definition
 #print axioms FFVerif.C18.api_history_frame
 #print axioms FFVerif.C18.api_history_frame_kind
+#print axioms FFVerif.C07.body_get_control_matrix
+#print axioms FFVerif.C07.body_cache_control_matrix
+#print axioms FFVerif.C07.body_get_filter_function
+#print axioms FFVerif.C07.body_cache_filter_function
+#print axioms FFVerif.C07.body_get_pulse_correlation_filter_function
+#print axioms FFVerif.C07.body_get_filter_function_derivative
+#print axioms FFVerif.C07.body_get_total_phases
+#print axioms FFVerif.C07.body_cache_total_phases
+#print axioms FFVerif.C07.body_diagonalize
+#print axioms FFVerif.C07.body_copy
+#print axioms FFVerif.C07.body_deepcopy
+#print axioms FFVerif.C07.body_get_pulse_correlation_control_matrix
